@@ -126,6 +126,11 @@ def _events():
     # a search that raises part-way through building a lazily cached per-locale list, then an ordinary search in that locale
     ev("fail: search(da, bytes skip token)", lambda a: search_dates("Mødet blev holdt d. 5. januar 2014 kl. 10:30", languages=["da"], settings=a["s"]), {"s": {"SKIP_TOKENS": [b"t"]}}, core=True)
     ev("search(da, dotted abbreviations)", lambda a: search_dates("Mødet blev holdt d. 5. januar 2014 kl. 10:30 i København.", languages=a["l"]), {"l": ["da"]}, core=True)
+    # a zone designator that is also a dictionary word, parsed once with SKIP_TOKENS naming it and once with the default settings
+    ev("parse(...Z, SKIP_TOKENS t+z)", lambda a: P("2019-12-31T23:59:59Z", languages=["en"], settings=a["s"]), {"s": {"SKIP_TOKENS": ["t", "z"]}})
+    ev("parse(...Z, default settings)", lambda a: P("2021-03-04T12:34:56Z", languages=["en"]))
+    ev("parse(... GMT, SKIP_TOKENS gmt)", lambda a: P("Tue, 10 Mar 2020 08:00:00 GMT", languages=["en"], settings=a["s"]), {"s": {"SKIP_TOKENS": ["t", "gmt"]}})
+    ev("parse(... GMT+5, default settings)", lambda a: P("Thu, 04 Mar 2021 12:34:56 GMT+5", languages=["en"]))
     # lenient clock spellings (24-hour value with a meridian) before ordinary 12-hour times
     ev("parse(16:50 pm)", lambda a: P("December 23, 2010, 16:50 pm", languages=["en"]))
     ev("parse(3:30 PM)", lambda a: P("March 5, 2024 3:30 PM", languages=["en"]))
